@@ -32,6 +32,16 @@ theorem hooks_at_linearization_points : Gen.hooks = linPoints := by decide
 /-- `mem_cache<process_settings>` has the same lock table -/
 theorem process_variant_same : Gen.processVariantSame = true := by decide
 
+/-- `private/hash_map.h`: the lookups `mem_cache` performs on its hash maps (`find`, `end`) write nothing
+but local variables — decided by the translator from the *bodies* of `hash_map::find`,
+`basic_map::find`, `find_in_range`, `get` (and whatever they call), not from their names.  The access
+table (`Gen.accesses`, hence `discipline_ok`/`race_free`) classifies every `hash_map` call the same
+way: a lookup that re-links its bucket chain would appear there as a write to `primary` under the
+shared lock. -/
+theorem hash_map_lookup_read_only :
+    ("find", false) ∈ Gen.hashMapCalls ∧
+    ∀ x ∈ Gen.hashMapCalls, (x.1 = "find" ∨ x.1 = "end" ∨ x.1 = "begin" ∨ x.1 = "size") → x.2 = false := by decide
+
 /-- static lock order of a guard skeleton: `access_lock` is only ever requested with nothing held,
 `lru_mutex` only while holding `access_lock` (and nothing else), and nothing is held at the end -/
 def orderOk : Held → List Instr → Bool
